@@ -166,6 +166,11 @@ def check(repo, res, tier):
     res.rule('C12.M2', 'every cycle of Monitor.run appends one row and yields timeout(1)')
     res.rule('C12.M3', 'each reported column reads the state field it names')
     res.rule('C12.M4', 'usage counters move with their containers in every atomic block of the Cluster')
+    from . import c18
+    from .common import borrow
+    res.rule('C12.M7', 'adopted C18.V4: the stored column counts an observation in exactly one tier -- the receiving tier '
+                       'appends it when (and only when) its transfer completes')
+    borrow(repo, res, tier, c18, {'C18.V4'}, 'C12.M7')
     w = witness()
     res.extra['simpy_witness'] = w
     res.assumptions += ['SimPy order model: processes registered first wake first in every step']
